@@ -106,9 +106,9 @@ MKeyShapes == { <<"k0">>, <<"k0", "k1">>, <<"k0", "k1", "k2">>, <<"k0", "k1", "k
                 <<"k0", "k1", "k2", "k0", "k1", "k2">> }
 MergeDeep == {Wrap(n, w) : n \in MLeafs, w \in MKeyShapes}
 
-(* documents for the carrier property (C16): every string atom y0..y47 (concretised by the yaml-hostile *)
+(* documents for the carrier property (C16): every string atom y0..y49 (concretised by the yaml-hostile *)
 (* table) as root, array member, object value and object key; numbers; empty containers               *)
-YAtoms == {"y" \o ToString(i) : i \in 0..47}
+YAtoms == {"y" \o ToString(i) : i \in 0..49}
 YamlDocs ==
   UNION { {Str(y), Arr(<<Str(y), N1>>), O1("k0", Str(y)), Obj([j \in {y} |-> N1]), Arr(<<N1, Str(y)>>),
            Obj([j \in {"k0", y} |-> IF j = "k0" THEN Arr(<<Str(y)>>) ELSE Str(y)]),
